@@ -52,8 +52,8 @@ CONSTANTS RD, CAD, DT, DnsT,   \* RESOLUTION_DELAY, CONNECTION_ATTEMPT_DELAY, DI
           Times,               \* completion times of lookups
           MaxAddrs,            \* addresses per family
           Behs,                \* connect behaviours [ok, d]
-          Urls,                \* URL shapes [scheme, port, host]; the first one of UrlOrder is combined with every
-                               \* environment, the others with one simple environment each
+          Urls,                \* additional URL shapes [scheme, port, host]: DefaultUrl is combined with every
+                               \* environment, each of these with one simple environment
           Biased,              \* TRUE: arm priorities as in the code
           FixedToggle          \* TRUE: the code (pop_family flips next_is_v6 on every pop)
 V4 == "v4"  V6 == "v6"
